@@ -1,6 +1,7 @@
 import L21.Props.C07
 import L21.Props.C07Lib
 import L21.Props.C07RT
+import L21.Props.LayersT
 #print axioms L21.RawGds.c07_path_open
 #print axioms L21.RawGds.c07_path_roundtrip
 #print axioms L21.RawGds.c07_rect_roundtrip
@@ -13,3 +14,7 @@ import L21.Props.C07RT
 #print axioms L21.RawGds.c07_cell_roundtrip_nonets
 #print axioms L21.RawGds.c07_label_names_one
 #print axioms L21.RawGds.c07_library
+#print axioms L21.Layers.layer_num_after_history
+#print axioms L21.Layers.layer_num_never_forgets
+#print axioms L21.Layers.get_or_insert_fidelity
+#print axioms L21.Layers.get_or_insert_history
